@@ -61,6 +61,15 @@ def record(chk, cases, n_per_class):
                 continue
             events.append({"ev": "DecodeBytes", "cls": name, "in": list(out),
                            "out": {k: num(int(v)) for k, v in dec.items() if isinstance(v, int)}})
+            # the caller edits the dictionary it got, then decodes the same bytes again:
+            # the second result must again be what the bytes say
+            for k in list(dec):
+                if isinstance(dec[k], int):
+                    dec[k] = 0 if dec[k] else 1
+            cmds.benign(name)
+            dec2 = K.unmarshall_cdb(bytearray(out))
+            events.append({"ev": "DecodeBytes", "cls": name, "in": list(out),
+                           "out": {k: num(int(v)) for k, v in dec2.items() if isinstance(v, int)}})
             chk.ev.case((name, str(sorted(d.items()))))
             # repeating a call with equal inputs yields equal bytes
             cmds.benign(name)
